@@ -40,6 +40,11 @@ ARM_SPECS = {
     4: Seq(RNG, Star("POP(CUR)", "COLLECT(VEC,POPPED)"), "REVERSE(VEC)", "ITER(VEC)", Star("ELEMOP(flip,ELEM)", "ACCOP(mul,ONE,ELEM)", "PUSH(CUR,ELEM)"), "PUSH(DOT,ONE)"),
     5: Seq("POP(CUR)", RNG, Star("PUSH(DOT,COPY(POPPED))"), "PUSH(CUR,POPPED)", "SELECT(DOT)"),
 }
+# accepted variants (same behaviour): the collected operands are reversed in place and then iterated, or
+# iterated in reverse
+ARM_VARIANTS = {k: [v] for k, v in ARM_SPECS.items()}
+ARM_VARIANTS[3].append(Seq(RNG, Star("POP(CUR)", "COLLECT(VEC,POPPED)"), "ITER(REV(VEC))", Star("ELEMOP(minus,ELEM)", "ACCOP(add,ZERO,ELEM)", "PUSH(CUR,ELEM)"), "PUSH(DOT,ZERO)"))
+ARM_VARIANTS[4].append(Seq(RNG, Star("POP(CUR)", "COLLECT(VEC,POPPED)"), "ITER(REV(VEC))", Star("ELEMOP(flip,ELEM)", "ACCOP(mul,ONE,ELEM)", "PUSH(CUR,ELEM)"), "PUSH(DOT,ONE)"))
 ID = "((AREACOUNT Shl K4) Add AREATYPE)"
 
 
@@ -132,7 +137,7 @@ def rule_arms(ctx, R):
         if k not in arms:
             continue
         d = language(body, fb, cfg, arms[k], [join], ev)
-        check_lang(R, "execute_one:arm%d" % k, "command kind %d in execute_one" % k, d, ARM_SPECS[k], body.blocks[arms[k]]["term"]["span"]["at"])
+        check_lang_any(R, "execute_one:arm%d" % k, "command kind %d in execute_one" % k, d, ARM_VARIANTS[k], body.blocks[arms[k]]["term"]["span"]["at"])
 
 
 def closure_roles(fb, parent, proles, cbody):
@@ -248,6 +253,18 @@ def rule_calc(ctx, R):
             ),
         )
 
+    def branch_eq(name):
+        e1 = "BR[PartialEq::eq(%s,Option::Some{Ordering::%s{}})]" % (cmp_, name)
+        e2 = "BR[PartialEq::eq(Option::Some{Ordering::%s{}},%s)]" % (name, cmp_)
+        return [Seq("FnMut::call_mut(POPFN,tuple{})", Alt(Seq(e + "=1", "DESCEND(left,NODE@Val)"), Seq(e + "=0", "DESCEND(right,NODE@Val)"))) for e in (e1, e2)]
+
+    def mk(b0, b1):
+        return Seq(
+            Star("SW[DISCR(NODE)]=0", Alt(Seq("EQ[K0,%s]=1" % T, b0), Seq("EQ[K0,%s]=0" % T, "EQ[K1,%s]=1" % T, b1))),
+            Alt(Seq("SW[DISCR(NODE)]=0", "EQ[K0,%s]=0" % T, "EQ[K1,%s]=0" % T, "RET(Result::Ok{%s})" % T), Seq("SW[DISCR(NODE)]=1", "RET(Result::Ok{K0})")),
+        )
+
+    variants = [mk(branch("255"), branch("0"))] + [mk(a, b_) for a, b_ in zip(branch_eq("Less"), branch_eq("Equal"))]
     spec = Seq(
         Star(
             "SW[DISCR(NODE)]=0",
@@ -255,7 +272,7 @@ def rule_calc(ctx, R):
         ),
         Alt(Seq("SW[DISCR(NODE)]=0", "EQ[K0,%s]=0" % T, "EQ[K1,%s]=0" % T, "RET(Result::Ok{%s})" % T), Seq("SW[DISCR(NODE)]=1", "RET(Result::Ok{K0})")),
     )
-    check_lang(R, "calc:language", "area::calc (? -> Less selects left, ! -> Equal selects left, NaN/other -> right, leaf -> its type, Nil -> 0)", d, spec, body.span)
+    check_lang_any(R, "calc:language", "area::calc (? -> Less selects left, ! -> Equal selects left, NaN/other -> right, leaf -> its type, Nil -> 0)", d, variants, body.span)
 
 
 def rule_push(ctx, R):
@@ -327,9 +344,10 @@ def rule_nan(ctx, R):
     )
     P = "Vec::pop(%s)" % G
     pop_spec = Seq(G, P, Alt(Seq("SW[DISCR(%s)]=1" % P, "RET(SOME(%s))" % P), Seq("SW[DISCR(%s)]=0" % P, "RET(NAN)")))
+    pop_specs = [pop_spec, Seq(G, P, "Option::unwrap_or_else(%s,FN:Num::nan)" % P, "RET(Option::unwrap_or_else(%s,FN:Num::nan))" % P), Seq(G, P, "Option::unwrap_or(%s,NAN)" % P, "RET(Option::unwrap_or(%s,NAN))" % P)]
     for name, spec, what in (
-        (S + "push_stack", push_spec, "default State::push_stack (NaN is never stored on an empty stack)"),
-        (S + "pop_stack", pop_spec, "default State::pop_stack (empty pop yields NaN)"),
+        (S + "push_stack", [push_spec], "default State::push_stack (NaN is never stored on an empty stack)"),
+        (S + "pop_stack", pop_specs, "default State::pop_stack (empty pop yields NaN)"),
     ):
         b = fb.bodies.get(name)
         if not R.anchor(b is not None, name, what):
@@ -337,7 +355,7 @@ def rule_nan(ctx, R):
         R.analyse(name)
         cfg = normal_cfg(b)
         d = language(b, fb, cfg, 0, cfg.returns, Events(b, fb), stop_at_exit=False)
-        check_lang(R, name + ":language", what, d, spec, b.span)
+        check_lang_any(R, name + ":language", what, d, spec, b.span)
     # vector-backed state: same rule behind a bounds test
     L = "LT[LOC,Vec::len(ARG1.stack)]"
     I = "Index::index(ARG1.stack,LOC)"
@@ -375,37 +393,54 @@ def rule_loop(ctx, R):
     if not R.anchor(b is not None, "execute", "execute::execute"):
         return
     R.analyse(b.name)
-    org = Origins(b, fb)
-    vars_ = Vars(b)
     cfg = normal_cfg(b)
-    # loop condition: Lt(cur_loc, length) with length = push_code(..) + 1
-    found = False
-    for bi, blk in enumerate(b.blocks):
-        t = blk["term"]
-        if t["k"] == "switch" and t["xty"] == "bool":
-            o = org.of_operand(t["x"], bi, "t")
-            if o[0] == "bin" and o[1] == "Lt":
-                rhs = o[3]
-                ok_len = rhs[0] == "bin" and rhs[1] == "Add" and rhs[2][0] == "call" and rhs[2][1] == S + "push_code" and rhs[3] == ("const", "usize", 1)
-                lhs = o[2]
-                # lhs: the position variable: initially push_code's result, later execute_one's .1
-                alts = lhs[1] if lhs[0] == "phi" else (lhs,)
-                ok_pos = any(a[0] == "call" and a[1] == S + "push_code" for a in alts)
-                found = True
-                R.check(ok_len, "execute:length", "loop bound is (index of the appended command) + 1: %s" % show(rhs), t["span"]["at"])
-                R.check(ok_pos, "execute:start", "execution starts at the appended command: %s" % show(lhs)[:200], t["span"]["at"])
-                # true edge enters the loop body, false edge leaves
-                body_succ = [s for s in cfg.succ[bi]]
-                tgt_true = t["otherwise"] if "0" in [v for v, _ in t["arms"]] else None
-                exec_blocks = [x for x, tt in b.calls() if callee_name(tt["f"], fb) == EXEC_ONE]
-                R.check(bool(exec_blocks) and tgt_true is not None and all(reaches_without(cfg, [tgt_true], x) for x in exec_blocks), "execute:body", "the loop body (condition true) steps with execute_one", t["span"]["at"])
-    R.anchor(found, "execute:cond", "loop condition position < length in execute()")
-    # the step: execute_one(ipt,out,err,state,cur_loc); both results are written back
+    vars_ = Vars(b)
+    # the position variable: the usize local fed to execute_one as position
+    steps = [(bi, t) for bi, t in b.calls() if callee_name(t["f"], fb) == EXEC_ONE]
+    if not R.anchor(len(steps) == 1, "execute:step", "the single execute_one step of execute()"):
+        return
+    sb, st = steps[0]
+    pos = vars_.root_key(st["args"][4])
+    if not R.anchor(pos is not None and pos[0] == "L", "execute:pos", "position variable of execute()"):
+        return
     roles = Roles(b, fb)
-    for bi, t in b.calls():
-        if callee_name(t["f"], fb) == EXEC_ONE:
-            rs = [roles.of_operand(a, bi) for a in t["args"]]
-            R.check(rs[:3] == ["IN", "OUT", "ERR"], "execute:streams", "execute() passes its input/output/error handles through unchanged: %s" % rs[:3], t["span"]["at"])
+    ev = Events(b, fb, roles=roles)
+    # the step is inside a loop, and the loop is left exactly when POS passed the appended command
+    loops = {}
+    for be in cfg.back_edges():
+        loops.setdefault(be[1], set()).update(cfg.natural_loop(be))
+    loop = [bl for h, bl in loops.items() if sb in bl]
+    if not R.anchor(len(loop) == 1, "execute:loop", "the stepping loop of execute()"):
+        return
+    loop = loop[0]
+    exit_labels = set()
+    stay_labels = set()
+    for x in loop:
+        t = b.blocks[x]["term"]
+        if t["k"] != "switch":
+            continue
+        for s2 in cfg.succ[x]:
+            lab = ev.generic_edge(x, t, s2)
+            if lab and "PUSHCODE" in lab and lab.startswith("LT["):
+                from .gea import _split_top
+                a, b_ = _split_top(lab[3:lab.rindex("]")])
+                norm = lambda x: "POS" if ("PHI(" in x and "PUSHCODE" in x) else x
+                lab = "LT[%s,%s]%s" % (norm(a), norm(b_), lab[lab.rindex("]") + 1:])
+                (exit_labels if s2 not in loop else stay_labels).add(lab)
+    ok_forms = (
+        ({"LT[POS,(PUSHCODE Add K1)]=0"}, {"LT[POS,(PUSHCODE Add K1)]=1"}),
+        ({"LT[PUSHCODE,POS]=1"}, {"LT[PUSHCODE,POS]=0"}),
+    )
+    R.check((exit_labels, stay_labels) in ok_forms, "execute:bound", "the loop is left exactly when the position is past the appended command (exit on %s, continue on %s)" % (sorted(exit_labels), sorted(stay_labels)), b.blocks[sb]["term"]["span"]["at"])
+    # starts at the appended command; position and state are written back from the step's result
+    org = Origins(b, fb)
+    inits = []
+    for d in vars_.defs.get(pos[1], []):
+        o = org._site(pos[1], (d[1], d[2], d[0], d[3]), 0, ())
+        inits.append(Roles(b, fb).of_origin(o))
+    R.check("PUSHCODE" in inits and any("execute::execute_one" in x and x.endswith(".1") for x in inits), "execute:start_and_step", "execution starts at the appended command and continues at the position each step returns: %s" % [x[:50] for x in inits], b.blocks[sb]["term"]["span"]["at"])
+    rs = [Roles(b, fb).of_operand(a, sb) for a in st["args"]]
+    R.check(rs[:3] == ["IN", "OUT", "ERR"], "execute:streams", "execute() passes its input/output/error handles through unchanged: %s" % rs[:3], st["span"]["at"])
 
 
 RULES = [
